@@ -136,9 +136,9 @@ package gsfa
 
 //@ func (*GsfaReaderMultiepoch) GetBeforeUntil
 //@   mode int
-//@   requires limit <= 4611686018427387904
 //@   requires ctx != nil && fetcher != nil && validMulti(multi)
 //@   requires allocated(multi.epochs) && (len(multi.epochs) > 0 ==> ref(multi.epochs) != 0) && (forall i int :: 0 <= i && i < len(multi.epochs) ==> allocated(multi.epochs[i]))
+//@   requires limit <= 4611686018427387904
 //@   modifies allof([]uint8)
 //@   ensures result1 == nil ==> result0 != nil
 //@   ensures result1 == nil && until != nil ==> untilLast(result0, *until)
